@@ -17,10 +17,12 @@ META = dict(
     bounds=dict(quick="membership and fit twins: (2,3) and (3,3)/(2,2) systems, symbolic s > 0 and c > 0 (all positive unit changes at once), K vector, baseline vector; "
                       "range / spaced-solution twins: 2x3 catalogue entries of C06 with (s, c) from the grid {1e-4, 1e-2, 1/2, 3, 1e2, 1e4}^2 (products of two symbols with the "
                       "symbolic target would leave linear arithmetic)",
-                thorough="adds (3,4) membership/fit twins and the 3x4 catalogue entry for the range twins"),
+                thorough="adds (3,4) fit twins, matrix K for the 2x3 twins, the full (s,c) grid and the 3x4 catalogue entry for the range twins"),
     stubs=["Delaunay membership contract (scale-free by its statement; used by instances with the same convex weights)", "cvxpy -> symcp", "membership gate of C06 for the range twins"],
     assumptions=["real arithmetic", "s, c > 0", "K unchanged by the unit change, as the property states"],
-    outside=["effects of solver tolerances at non-unit scale (inside the compiled solvers)", "the 1e-8 absolute band of the NNLS fallback membership test"],
+    outside=["effects of solver tolerances at non-unit scale (inside the compiled solvers)", "the 1e-8 absolute band of the NNLS fallback membership test",
+             "membership twins for 3 receptors x 4 sources (probed in the thorough tier: ~33 min for one clause, `unknown` for another in one of two runs; dropped)",
+             "unbounded systems (ub = inf) and single-receptor systems (covered by C03)"],
 )
 
 
@@ -177,7 +179,10 @@ def cases(tier, seed):
         C.append(dict(name=name, body=body, kwargs=kw, opts=o))
     for (m, n) in ((2, 2), (2, 3), (3, 3)) + (((3, 4),) if big else ()):
         for kkind in ("vec", "mat") if ((m, n) == (2, 3) and big) else ("vec",):  # matrix K: the offset min{c p} = c min{p} step needs minutes of nlsat
-            add(f"membership twins {m}x{n} K={kkind}", "member_twin_case", m=m, n=n, kkind=kkind)
+            if (m, n) != (3, 4):
+                # 3x4 (16 box corners) was probed in the thorough tier and dropped: one clause took ~33 min of non-linear arithmetic and another came back
+                # unknown in one of two otherwise identical runs (stated as outside the bound)
+                add(f"membership twins {m}x{n} K={kkind}", "member_twin_case", m=m, n=n, kkind=kkind)
             add(f"fit twins {m}x{n} K={kkind}", "fit_twin_case", m=m, n=n, kkind=kkind)
     grid = ["1/10000", "1/100", "1/2", "3", "100", "10000"]
     pairs = [(s, c) for s in grid for c in grid]
